@@ -17,6 +17,19 @@ EVID = os.path.join(ROOT, "evidence")
 REPLAYS = os.path.join(ROOT, "replays")
 KNOWN = os.path.join(ROOT, "known_findings.json")
 GUARD_FLAGS = "--cfg cryptocorrosion_verif --check-cfg cfg(cryptocorrosion_verif)"
+# The checks rebuild from /repo's working tree.  VERIF_REPO redirects them to a snapshot of the repository (used only for
+# background exploration runs started with `vp run --with-repo`, never for the registered commands).
+REPO = os.environ.get("VERIF_REPO", "/repo")
+
+
+def _point_harness_at_repo():
+    if REPO == "/repo":
+        return
+    for name in ("Cargo.toml", "Cargo.lock"):
+        path = os.path.join(HARNESS, name)
+        txt = open(path).read()
+        if "/repo/" in txt:
+            open(path, "w").write(txt.replace('"/repo/', '"%s/' % REPO).replace("file:///repo/", "file://%s/" % REPO))
 
 EXIT_OK, EXIT_VIOLATION, EXIT_TOOL = 0, 1, 2
 
@@ -59,6 +72,7 @@ VARIANTS = {
 def build(variant):
     """(Re)build the harness against /repo's current working tree; returns the binary path."""
     args, prof, rf = VARIANTS[variant]
+    _point_harness_at_repo()
     tdir = os.path.join(WORK, "target", variant)
     env = {"CARGO_NET_OFFLINE": "true"}
     env["RUSTFLAGS"] = (GUARD_FLAGS + " " + rf).strip() + " -Awarnings"
